@@ -432,7 +432,7 @@ func init() {
 		return &fw.Prop{
 			ID:    "C06",
 			Level: "exploration",
-			Rule:  "cases = (executor, mechanism, gadget[, width n]): executor in {monitoring engine, compiled R1CS, compiled SCS}, mechanism in {native, commit, bit decomposition (env var, child process)}, gadget in {RangeCheck, RangeCheckWithMaxBits(n)}; each case evaluates the accept-set over the boundary values (0, 2^32, 2^64-2^32, p-1, p, p+1, 2^64, 2^n-1, 2^n, r-1, ...) plus seeded random values, existentially over the honest hints and the adversarial limb / decomposition candidates; oracle: accepted iff value < p resp. < 2^n. Unaligned widths under the commit mechanism must be REFUSED at build time. Non-trivial = at least one in-range and one out-of-range value were judged; distinct by case id.",
+			Rule:  "cases = (executor, mechanism, gadget[, width n]): executor in {monitoring engine, compiled R1CS, compiled SCS}, mechanism in {native, commit, bit decomposition (env var, child process)}, gadget in {RangeCheck, RangeCheckWithMaxBits(n)}; each case evaluates the accept-set over the boundary values (0, 2^32, 2^64-2^32, p-1, p, p+1, 2^64, 2^n-1, 2^n, r-1, ...) plus seeded random values, existentially over the honest hints and the adversarial limb / decomposition candidates; oracle: accepted iff value < p resp. < 2^n. Unaligned widths under the commit mechanism must be REFUSED at build time. Non-trivial = at least one in-range and one out-of-range value were judged; distinct by case id. Also: RangeCheckQE in either coordinate (other coordinate 7 or p-1), the same operand as a circuit constant, two checks of one variable (wider first), and 'midsize' circuits (0 .. 63488 further checks, incl. the exact cost-tie size) under the commitment-based mechanism on the engine, R1CS and SCS: refused at definition or exact.",
 			Assumptions: []string{
 				"a natively range-checking builder is emulated by a wrapper around gnark's real builders whose Check is a bit decomposition (gnark 0.9.1 ships no such builder), and by the engine's Native face",
 				"commitment hints of compiled systems are replaced by a hash of the committed values (as the provers do)",
